@@ -50,3 +50,4 @@ def sym_int(s, *a):
                 return value
             raise ValueError("invalid literal for int() with base 10: %r" % s)
     return builtins.int(s, *a)
+
